@@ -294,6 +294,41 @@ fn enumerate_key_faults(bytes: &[u8]) -> Vec<(Vec<u8>, String)> {
     out
 }
 
+/// every PAIR of lines of the [GLOBAL] section damaged together, each line either with its value emptied or (when it holds a
+/// number) with the number replaced by 0: consistency checks that compare two header entries with each other only show when
+/// both are off (seeded change C18i: `NUM_STREAMS:0` together with an empty `STREAM_TYPE:` passed the stream-count guard)
+fn enumerate_global_pairs(bytes: &[u8]) -> Vec<(Vec<u8>, String)> {
+    let mut out = Vec::new();
+    if !bytes.windows(7).any(|w| w == b"[DATA]\n") { return out; }
+    let p = split(bytes);
+    let lines: Vec<String> = p.head.lines().map(|s| s.to_string()).collect();
+    let Some(g0) = lines.iter().position(|l| l == "[GLOBAL]") else { return out };
+    let g1 = lines.iter().enumerate().skip(g0 + 1).find(|(_, l)| l.starts_with('[') && l.ends_with(']')).map(|(i, _)| i).unwrap_or(lines.len());
+    let idx: Vec<usize> = (g0 + 1..g1).filter(|i| lines[*i].contains(':')).collect();
+    let variants = |l: &str| -> Vec<(String, &'static str)> {
+        let c = l.find(':').unwrap();
+        let mut v = vec![(format!("{}:", &l[..c]), "emptied")];
+        if l[c + 1..].chars().all(|ch| ch.is_ascii_digit()) && !l[c + 1..].is_empty() { v.push((format!("{}:0", &l[..c]), "zero")); }
+        v
+    };
+    for (a, &i) in idx.iter().enumerate() {
+        for &j in idx.iter().skip(a + 1) {
+            for (li, ki) in variants(&lines[i]) {
+                for (lj, kj) in variants(&lines[j]) {
+                    let mut ls = lines.clone();
+                    ls[i] = li.clone();
+                    ls[j] = lj;
+                    let mut head = ls.join("\n");
+                    head.push('\n');
+                    let key = |l: &str| l.split(':').next().unwrap_or("").to_string();
+                    out.push((join(&Parts { head, data: p.data.clone() }), format!("pair:{}:{}+{}:{}", key(&lines[i]), ki, key(&lines[j]), kj)));
+                }
+            }
+        }
+    }
+    out
+}
+
 pub fn gen(seed: u64, thorough: bool) {
     let mut rng = Rng::new(seed);
     let src = Sources::new();
@@ -321,6 +356,8 @@ pub fn gen(seed: u64, thorough: bool) {
     fixed.extend(enumerate_number_faults(&bundled, &[("0", "zero"), ("4000000000", "huge")]));
     // every header key of one generated voice damaged in every single-character way
     fixed.extend(enumerate_key_faults(&bases[1 % bases.len()]));
+    // every pair of [GLOBAL] entries of one generated voice damaged together
+    fixed.extend(enumerate_global_pairs(&bases[2 % bases.len()]));
     let nfixed = fixed.len();
     for i in 0..(nfixed + n) {
         let (bytes, kind) = if i < nfixed { fixed[i].clone() } else {
